@@ -20,6 +20,8 @@ mod parking_lot;
 mod ref_count;
 mod stats;
 mod table;
+#[cfg(parity_db_verif)]
+pub mod verif;
 
 pub use btree::BTreeIterator;
 pub use column::{ColId, ValueIterState};
